@@ -266,6 +266,32 @@ let handle_line line =
         | SysRead -> "read" | SysUnlinkFinal -> "unlink_final" in
       let pr tag l = print_endline (tag ^ " " ^ String.concat " " (List.map name l)) in
       pr "SET" set_program; pr "GET" get_program; pr "DELETE" delete_program
+  | "WIRE" ->
+      (* WIRE <hex of the stored bytes> : the model's reading of a stored entry *)
+      let raw = next_b c in
+      (match parse_entry raw with
+       | None -> print_endline "WR fail"
+       | Some e ->
+           let m = e.we_msg in
+           let tbl : (string, string list) Stdlib.Hashtbl.t = Stdlib.Hashtbl.create 16 in
+           let order = Stdlib.ref [] in
+           List.iter (fun l ->
+             match cut (z_of_int 58) l with
+             | Some (k, v) ->
+                 let k' = string_of_bytes (canonical_key (tp_trim k)) in
+                 let v' = hex (tp_trim v) in
+                 (match Stdlib.Hashtbl.find_opt tbl k' with
+                  | Some vs -> Stdlib.Hashtbl.replace tbl k' (vs @ [v'])
+                  | None -> Stdlib.Hashtbl.add tbl k' [v']; order := k' :: !order)
+             | None -> ()) m.wm_fields;
+           let names = List.sort Stdlib.compare !order in
+           let buf = Buffer.create 256 in
+           Buffer.add_string buf (Printf.sprintf "WR ok %s %s %d" (hex e.we_id) (dec_of_z m.wm_status) (List.length names));
+           List.iter (fun n ->
+             let vs = Stdlib.Hashtbl.find tbl n in
+             Buffer.add_string buf (Printf.sprintf " %s %d %s" (hex (bytes_of_string n)) (List.length vs) (String.concat " " vs))) names;
+           Buffer.add_string buf (" " ^ hex m.wm_body);
+           print_endline (Buffer.contents buf))
   | "SWRX" ->
       (* SWRX <setting|U> <latency|N> <cancel|N> : all in ns *)
       let opt t = if t = "U" || t = "N" then None else Some (z_of_dec t) in
